@@ -59,8 +59,9 @@ func (cache *Cache) Add(keyID string, keyValue []byte) {
 
 // Get value by keyID
 func (cache *Cache) Get(keyID string) ([]byte, bool) {
-	cache.mutex.RLock()
-	defer cache.mutex.RUnlock()
+	// lru.Cache.Get moves the entry to the front of the list: it is a write, so it needs the exclusive lock
+	cache.mutex.Lock()
+	defer cache.mutex.Unlock()
 	value, ok := cache.lru.Get(keyID)
 	if ok {
 		return value.([]byte), ok
